@@ -58,8 +58,10 @@ func belongs(prop string, u *UnitResult, o *Obligation, clauseProps []string) bo
 		if isFrame {
 			return prop == "C01"
 		}
+		// clauses about freshness / allocation are what the frame proofs rest on: they serve C01 too
+		aboutFreshness := o.clause != nil && (strings.Contains(o.clause.Src, "fresh(") || strings.Contains(o.clause.Src, "allocated("))
 		if prop == "C01" {
-			return false
+			return aboutFreshness
 		}
 	}
 	return true
